@@ -333,6 +333,7 @@ def unit_oracle(case, impl):
     if "ERR:" in impl or impl.startswith("CRASH") or impl in ("MISSING", "BADCASE"):
         return [("crash", "implementation outcome %s" % impl[:120])]
     live = {}
+    prev_lst = []
     outs = impl.split(" ; ")
     k = 0
     for op in case.split("|", 1)[1].split():
@@ -372,6 +373,22 @@ def unit_oracle(case, impl):
             for e in lst:
                 if e not in conn:
                     viol.append(("pex-list-not-connected", "round %d: m_ut_pex_list keeps %s which is not connected" % (k, e)))
+            # exact delta (theorems pex_dropped_exact / pex_added_exact): dropped = previous list minus the connected peers,
+            # added = connected peers that were not listed (a subset of them when the round is over the 200 cap)
+            dm = m.group(3)
+            da, _, dd = dm.partition("/") if dm != "-" else ("", "", "")
+            got_added, got_dropped = set(ents(da)), set(ents(dd))
+            exp_dropped = {e for e in prev_lst if e not in conn}
+            exp_added = conn - set(prev_lst)
+            if got_dropped != exp_dropped:
+                viol.append(("pex-dropped-inexact", "round %d: delta 'dropped' is %s, the listed entries without a connected peer are %s" % (
+                    k, sorted(got_dropped)[:4], sorted(exp_dropped)[:4])))
+            if not got_added <= exp_added or (len(conn) <= 200 and got_added != exp_added):
+                viol.append(("pex-added-inexact", "round %d: delta 'added' is %s, the connected peers not yet listed are %s" % (
+                    k, sorted(got_added)[:4], sorted(exp_added)[:4])))
+            if len(lst) != len(set(lst)):
+                viol.append(("pex-list-duplicate", "round %d: m_ut_pex_list has a repeated entry" % k))
+            prev_lst = lst
             if len(lst) > 200:
                 viol.append(("pex-list-over-cap", "round %d: m_ut_pex_list has %d entries" % (k, len(lst))))
     seen, out = set(), []
